@@ -35,6 +35,11 @@ def main() -> int:
     if "VERIF_SCRATCH" not in os.environ:
         scratch = tempfile.mkdtemp(prefix="verif_scratch_", dir=os.environ.get("TMPDIR", "/tmp"))
         os.environ["VERIF_SCRATCH"] = scratch
+        # temporary files of the code under test (zip staging, TemporaryDirectory) go below it as well, so that a
+        # simulated process killed by an injected fault leaves nothing behind in /tmp
+        os.makedirs(os.path.join(scratch, "tmp"))
+        os.environ["TMPDIR"] = os.path.join(scratch, "tmp")
+        tempfile.tempdir = os.environ["TMPDIR"]
         owner = os.getpid()
 
         def _cleanup() -> None:
